@@ -1,5 +1,6 @@
 import Driver.Cmd.Kevent
 import Driver.Cmd.Pairing
+import Driver.Cmd.Render
 /-
   Line-protocol driver: one operation per line on stdin, one canonical answer per line on
   stdout.  Byte strings and texts travel as hex.  Imports no Mathlib (so it links).
@@ -8,7 +9,7 @@ import Driver.Cmd.Pairing
 open Driver
 
 def allCommands : List (String × Cmd) :=
-  Driver.Kevent.commands ++ Driver.Pairing.commands
+  Driver.Kevent.commands ++ Driver.Pairing.commands ++ Driver.Render.commands
 
 def dispatch (line : String) : String :=
   match (line.trimAscii.toString.splitOn " ").filter (· ≠ "") with
